@@ -103,6 +103,35 @@ fn main() {
                 None => fail("backward-differs", s.clk as usize, "no forward state with this clock".to_string()),
             }
         }
+        // zig-zag: next(), back(), next() at every clock; the state reported after turning around must be the
+        // forward state of the same clock (stack, fmp, ctx and memory)
+        {
+            let mut it = execute_iter(&p, inputs(), DefaultHost::default());
+            let mut guard = 0usize;
+            loop {
+                guard += 1;
+                if guard > 4 * n + 64 { break; }
+                let a = match it.next() { Some(Ok(s)) => s, _ => break };
+                if a.clk == 0 { continue; }
+                let b = it.back();
+                let c = it.next();
+                checks += 1;
+                match (b, c) {
+                    (Some(_), Some(Ok(c))) => {
+                        match fwd.iter().find(|f| f.clk == c.clk) {
+                            Some(f) => {
+                                if c.clk != a.clk { fail("zigzag-differs", a.clk as usize, format!("next, back, next at clk {} ends at clk {}", a.clk, c.clk)); break; }
+                                if c.stack != f.stack || c.fmp != f.fmp || c.ctx != f.ctx || c.memory != f.memory {
+                                    fail("zigzag-differs", c.clk as usize, format!("next() after back() at clk {}: ctx {:?} fmp {} vs forward ctx {:?} fmp {}", c.clk, c.ctx, c.fmp.as_int(), f.ctx, f.fmp.as_int()));
+                                }
+                            }
+                            None => fail("zigzag-differs", c.clk as usize, "no forward state with this clock".to_string()),
+                        }
+                    }
+                    _ => { fail("zigzag-differs", a.clk as usize, "iterator ended while turning around".to_string()); break; }
+                }
+            }
+        }
         // (4) clk pushes the clock value
         if *name == "clk" {
             for w in fwd.windows(2) {
